@@ -3,6 +3,7 @@ package app
 import (
 	"bytes"
 
+	"github.com/ethereum/go-ethereum/common"
 	abcitypes "github.com/tendermint/tendermint/abci/types"
 )
 
@@ -98,6 +99,20 @@ func H_C12_endblock() {
 	for i, c := range app.Configs {
 		vfAssert(!preStarted[i] || c.Started, "started-is-sticky")
 		vfAssert(!preUpdated[i] || c.ValidatorsUpdated, "validators-updated-is-sticky")
+		{
+			// the check-in quorum of THIS configuration decides, exactly: its own threshold, but at
+			// least n - ceil(n/3) + 1 of its own keypers
+			n := uint64(len(c.Keypers))
+			req := n - (n+2)/3 + 1
+			if c.Threshold > req {
+				req = c.Threshold
+			}
+			if n == 0 {
+				req = 0
+			}
+			want := preUpdated[i] || (c.Started && vfCheckedIn(app, c) >= req)
+			vfAssert(c.ValidatorsUpdated == want, "validator-transition-happens-exactly-when-the-configuration's-own-check-in-quorum-is-met")
+		}
 		if c.ValidatorsUpdated && !preUpdated[i] {
 			vfReach("transition")
 			n := uint64(len(c.Keypers))
@@ -154,6 +169,109 @@ func H_C11_start_quorum() {
 		}
 		if !c.Started {
 			vfReach("not-started")
+		}
+	}
+}
+
+// vfFixedAddr / vfFixedKey: pairwise distinct concrete keys. Which keyper is which does not matter
+// to EndBlock; what matters (who has checked in, who has seen which block, thresholds, flags,
+// activation blocks) stays symbolic. Concrete keys keep the map encodings small enough for a
+// second configuration with four keypers (the smallest size at which a threshold can exceed the
+// two-thirds bound and therefore matters).
+func vfFixedAddr(i int) common.Address {
+	var a common.Address
+	a[19] = byte(i + 1)
+	return a
+}
+
+func vfFixedKey(i int) ValidatorPubkey {
+	b := make([]byte, 32)
+	b[0] = byte(i + 1)
+	return ValidatorPubkey{Ed25519pubkey: string(b)}
+}
+
+func H_C12_endblock_two_configs() {
+	app := NewShutterApp()
+	// configuration 0 (one or two keypers) is in force; configuration 1 has keypers1 keypers
+	n0, n1 := vfParam("keypers0", 1), vfParam("keypers1", 4)
+	c0 := &BatchConfig{KeyperConfigIndex: vfU64("cfg0.index"), ActivationBlockNumber: vfU64("cfg0.activation"), Threshold: vfU64("cfg0.threshold"), Started: true, ValidatorsUpdated: true}
+	c1 := &BatchConfig{KeyperConfigIndex: vfU64("cfg1.index"), ActivationBlockNumber: vfU64("cfg1.activation"), Threshold: vfU64("cfg1.threshold"), Started: vfBool("cfg1.started")}
+	c1.ValidatorsUpdated = c1.Started && vfBool("cfg1.updated")
+	for i := 0; i < n0; i++ {
+		c0.Keypers = append(c0.Keypers, vfFixedAddr(i))
+	}
+	for i := 0; i < n1; i++ {
+		c1.Keypers = append(c1.Keypers, vfFixedAddr(10+i))
+	}
+	vfAssume(c0.Threshold >= 1 && c0.Threshold <= uint64(n0) && c1.Threshold >= 1 && c1.Threshold <= uint64(n1))
+	vfAssume(c1.KeyperConfigIndex > c0.KeyperConfigIndex && c1.ActivationBlockNumber >= c0.ActivationBlockNumber)
+	app.Configs = []*BatchConfig{c0, c1}
+	for i, k := range c0.Keypers {
+		if vfBool("cfg0.checked-in") {
+			app.Identities[k] = vfFixedKey(i)
+		}
+		if vfBool("cfg0.block-seen") {
+			app.BlocksSeen[k] = vfU64("cfg0.block")
+		}
+	}
+	for i, k := range c1.Keypers {
+		if vfBool("cfg1.checked-in") {
+			app.Identities[k] = vfFixedKey(10 + i)
+		}
+	}
+	// the validator set held so far: that of the newest configuration already in force, if any
+	app.Validators = make(Powermap)
+	if c1.ValidatorsUpdated {
+		app.Validators = app.makePowermap(c1.Keypers)
+	} else if c0.ValidatorsUpdated {
+		app.Validators = app.makePowermap(c0.Keypers)
+	} else {
+		app.Validators[vfFixedKey(30)] = 10
+	}
+	pre := []BatchConfig{*c0, *c1}
+	prev := make(Powermap)
+	for k, p := range app.Validators {
+		prev[k] = p
+	}
+	resp := app.EndBlock(abcitypes.RequestEndBlock{Height: vfI64("height")})
+
+	newest := -1
+	for i := 1; i >= 0; i-- {
+		if app.Configs[i].Started && app.Configs[i].ValidatorsUpdated {
+			newest = i
+			break
+		}
+	}
+	if newest >= 0 {
+		vfAssert(vfDeepEq(app.Validators, vfIntended(app, app.Configs[newest])), "validators-are-the-intended-set-of-the-newest-active-configuration")
+		if newest == 1 {
+			vfReach("second-configuration-in-force")
+		}
+	} else {
+		vfAssert(vfDeepEq(app.Validators, prev), "validators-unchanged-without-active-config")
+	}
+	vfApplyUpdates(prev, resp.ValidatorUpdates)
+	vfAssert(vfDeepEq(prev, app.Validators), "updates-lead-to-held-set")
+	for i, c := range app.Configs {
+		n := uint64(len(c.Keypers))
+		req := n - (n+2)/3 + 1
+		if c.Threshold > req {
+			req = c.Threshold
+		}
+		in := vfCheckedIn(app, c)
+		var votes uint64
+		for _, k := range c0.Keypers { // the preceding configuration of both is configuration 0
+			if b, ok := app.BlocksSeen[k]; ok && b >= c.ActivationBlockNumber {
+				votes++
+			}
+		}
+		wantStarted := pre[i].Started || votes >= c0.Threshold
+		vfAssert(c.Started == wantStarted, "configuration-starts-exactly-with-the-block-seen-quorum-of-the-preceding-configuration")
+		wantUpdated := pre[i].ValidatorsUpdated || (c.Started && in >= req)
+		vfAssert(c.ValidatorsUpdated == wantUpdated, "validator-transition-happens-exactly-when-the-configuration's-own-check-in-quorum-is-met")
+		if c.ValidatorsUpdated && !pre[i].ValidatorsUpdated {
+			vfReach("transition")
+			vfAssert(3*in > 2*n, "checked-in-power-exceeds-two-thirds")
 		}
 	}
 }
